@@ -1,7 +1,7 @@
 (* C05 — the reader is a faithful cursor over the file's point sequence. *)
 From Coq Require Import ZArith List Bool.
 From LasV Require Import Lib.Base Gen.GenCursor Model.Cursor Proofs.CursorProofs Model.CursorBytes Proofs.CursorBytesProofs
-  Model.CursorFault Proofs.CursorFaultProofs.
+  Model.CursorFault Proofs.CursorFaultProofs Model.CursorIter Proofs.CursorIterProofs.
 Import ListNotations.
 Open Scope Z_scope.
 
@@ -95,6 +95,34 @@ Theorem C05_cursor_after_source_necessary : forall n k, 1 <= n -> 1 <= k ->
 Proof. exact early_cursor_loses. Qed.
 Print Assumptions C05_cursor_after_source_necessary.
 
+(* ---- the complete iteration `for chunk in chunk_iterator(k)` and the life of the reader after it (Model/CursorIter.v) ---- *)
+
+(* from any state a history reaches (source at the cursor, C05_refines), for every chunk size k >= 1: the chunks of the loop tile
+   the rest of the file - consecutive, none empty, k records each except a shorter last one - and the loop leaves an ordinary
+   reader state: cursor and source at the last record *)
+Theorem C05_for_loop : forall s k, 1 <= k -> 0 <= c_read s <= c_n s ->
+  fst (for_loop s k) = mkC (c_n s) (c_n s) (c_src s + (c_n s - c_read s))
+  /\ tiles (c_src s) (c_src s + (c_n s - c_read s)) k (snd (for_loop s k)).
+Proof. exact for_loop_spec. Qed.
+Print Assumptions C05_for_loop.
+(* the loop is next() until StopIteration: more next(k) calls than there are chunks give the chunks, then StopIteration only, and
+   the same final state (so every theorem about histories speaks about histories with complete loops in them) *)
+Theorem C05_for_loop_is_repeated_next : forall s k m, 1 <= k -> 0 <= c_read s <= c_n s ->
+  (length (snd (for_loop s k)) < m)%nat ->
+  crun s (repeat (CNext k) m) = (fst (for_loop s k), snd (for_loop s k) ++ repeat (OErr EStop) (m - length (snd (for_loop s k)))).
+Proof. exact for_loop_is_repeated_next. Qed.
+Print Assumptions C05_for_loop_is_repeated_next.
+(* the reader outlives the loop: a seek to any point of the file afterwards is served *)
+Theorem C05_seek_after_for_loop : forall s k pos, 1 <= k -> 0 <= c_read s <= c_n s -> 0 <= pos < c_n s ->
+  cstep (fst (for_loop s k)) (CSeek pos 0) = (mkC (c_n s) pos pos, OSeek pos).
+Proof. exact seek_after_loop. Qed.
+Print Assumptions C05_seek_after_for_loop.
+(* necessity: an iterator that closes the reader when exhausted refuses exactly those seeks *)
+Theorem C05_closing_iterator_breaks : forall s k pos, 1 <= k -> 0 <= c_read s <= c_n s -> 0 <= pos < c_n s ->
+  closed_after_loop_seek (fst (for_loop s k)) pos 0 <> snd (cstep (fst (for_loop s k)) (CSeek pos 0)).
+Proof. exact closing_iterator_breaks. Qed.
+Print Assumptions C05_closing_iterator_breaks.
+
 Example C05_nonvacuous :
   snd (crun (mkC 10 0 0) [CRead 3; CSeek (-2) 2; CNext 5; CNext 5; CSeek 10 0; CSeek 4 1; CReadAll])
   = [OSlice 0 3; OSeek 8; OSlice 8 10; OErr EStop; OErr EIndex; OErr EIndex; OSlice 10 10]
@@ -104,5 +132,7 @@ Example C05_nonvacuous :
                                         FOk (CSeek 1 1); FFail CReadAll; FOk CReadAll; FFail CReadAll; FFail (CNext 2)])
   = [BBytes 300 448; BErr EOther; BBytes 448 633; BErr EIndex; BErr EOther; BErr EIndex; BErr EOther; BBytes 633 670; BBytes 670 670; BErr EStop]
   /\ erase (mkC 10 0 0) [FOk (CRead 4); FFail (CRead 5); FCaller; FOk (CRead 5); FFail CReadAll; FOk CReadAll; FFail CReadAll]
-  = [CRead 4; CRead 5; CReadAll; CReadAll].
+  = [CRead 4; CRead 5; CReadAll; CReadAll]
+  /\ for_loop (mkC 10 3 3) 4 = (mkC 10 10 10, [OSlice 3 7; OSlice 7 10])
+  /\ snd (crun (mkC 10 3 3) (repeat (CNext 4) 4 ++ [CSeek 0 0; CNext 4])) = [OSlice 3 7; OSlice 7 10; OErr EStop; OErr EStop; OSeek 0; OSlice 0 4].
 Proof. vm_compute. repeat split; reflexivity. Qed.
